@@ -104,6 +104,42 @@ def shard_seed(base: int, check_id: str, shard: int) -> int:
     return int.from_bytes(h[:6], "big")
 
 
+CASE_TIMEOUT_S = 30
+
+
+class CaseTimeout(BaseException):
+    pass
+
+
+class case_timeout:
+    """Wall-clock bound for one case (main thread only; no-op elsewhere)."""
+
+    def __init__(self, seconds):
+        self.seconds = seconds
+        self.armed = False
+
+    def __enter__(self):
+        import signal
+        import threading
+
+        if threading.current_thread() is threading.main_thread():
+            def handler(signum, frame):
+                raise CaseTimeout()
+
+            self.old = signal.signal(signal.SIGALRM, handler)
+            signal.setitimer(signal.ITIMER_REAL, self.seconds)
+            self.armed = True
+        return self
+
+    def __exit__(self, *exc):
+        import signal
+
+        if self.armed:
+            signal.setitimer(signal.ITIMER_REAL, 0)
+            signal.signal(signal.SIGALRM, self.old)
+        return False
+
+
 def run_hypothesis(strategy, examine, n_examples, seed_value, stats: ShardStats, time_budget=None):
     """Drive `examine(case) -> Outcome` with Hypothesis; failures are collected, not raised."""
     import hypothesis
@@ -129,7 +165,13 @@ def run_hypothesis(strategy, examine, n_examples, seed_value, stats: ShardStats,
     def test(case):
         if time_budget is not None and time.time() - t0 > time_budget:
             return
-        out = examine(case)
+        try:
+            with case_timeout(CASE_TIMEOUT_S):
+                out = examine(case)
+        except CaseTimeout:
+            # a time budget that runs out is inconclusive, never a violation
+            stats.counters["case_timeout_inconclusive"] = stats.counters.get("case_timeout_inconclusive", 0) + 1
+            return
         stats.add(case, out)
 
     stats.seeds.append(seed_value)
@@ -161,9 +203,26 @@ def run_sharded(check_id, tier, nshards, base_seed, extra=None) -> ShardStats:
     # spawn, not fork: the parent has already executed Polars (replay tier) and a forked child
     # would inherit its thread pool in a locked state
     ctx = mp.get_context("spawn")
-    with ctx.Pool(min(nshards, os.cpu_count() or 1)) as pool:
-        for st in pool.imap_unordered(_shard_entry, args):
-            total.merge(st)
+    from concurrent.futures import ProcessPoolExecutor, as_completed
+    from concurrent.futures.process import BrokenProcessPool
+
+    crashed = 0
+    with ProcessPoolExecutor(max_workers=min(nshards, os.cpu_count() or 1), mp_context=ctx) as ex:
+        futs = {ex.submit(_shard_entry, a): a for a in args}
+        try:
+            for f in as_completed(futs):
+                try:
+                    total.merge(f.result())
+                except BrokenProcessPool:
+                    crashed += 1
+        except BrokenProcessPool:
+            crashed += 1
+    if crashed:
+        # an engine crash (segfault / abort) takes the worker down: its cases are lost, which makes
+        # the run smaller, not wrong.  More than half of the shards lost is a harness error.
+        total.counters["crashed_shards"] = crashed
+        if crashed * 2 > nshards:
+            total.harness_errors.append(f"{crashed} of {nshards} worker processes crashed")
     return total
 
 
